@@ -184,11 +184,25 @@ def run(ctx, res):
                         continue
                     raw["tmap"] = (tm[0], tm[1], [x + 1 if x == mx else x for x in tm[2]])
                 elif m == "tmap-missing":
-                    key = (raw["tnames"][0][0], raw["tdoses"][0][0])
+                    # prefer a data key whose removal leaves the ids dense (max id, or one of several controls),
+                    # so that only the coverage test can reject
+                    cells = set((nm, float(d)) for rn, rd in zip(raw["tnames"], raw["tdoses"]) for nm, d in zip(rn, rd))
+                    mx = max(tm[2])
+                    nctl = sum(1 for x in tm[2] if x == -1)
+                    cand = [i for i in range(len(tm[0])) if (str(tm[0][i]), float(tm[1][i])) in cells
+                            and (tm[2][i] == mx or (tm[2][i] == -1 and nctl >= 2))]
+                    if cand and rng.random() < 0.8:
+                        drop = rng.choice(cand)
+                        key = (str(tm[0][drop]), float(tm[1][drop]))
+                    else:
+                        key = (raw["tnames"][0][0], raw["tdoses"][0][0])
                     keep = [i for i in range(len(tm[0])) if (str(tm[0][i]), float(tm[1][i])) != key]
                     raw["tmap"] = tuple([x[i] for i in keep] for x in tm)
                 elif m == "smap-missing":
-                    keep = [i for i in range(len(sm[0])) if str(sm[0][i]) != raw["snames"][0]]
+                    mx = max(sm[1])
+                    cand = [str(sm[0][i]) for i in range(len(sm[0])) if sm[1][i] == mx and str(sm[0][i]) in raw["snames"]]
+                    name = cand[0] if cand and rng.random() < 0.8 else raw["snames"][0]
+                    keep = [i for i in range(len(sm[0])) if str(sm[0][i]) != name]
                     raw["smap"] = tuple([x[i] for i in keep] for x in sm)
                 elif m == "smap-gap":
                     raw["smap"] = (sm[0], [x + 1 if x == max(sm[1]) else x for x in sm[1]])
